@@ -359,6 +359,8 @@ def explore_forms(chunk):
                 break
             if any(HANG_OPERANDS.get(a, 0) >= 6 for a in t):
                 continue
+            if "10^400" in t and "*" in fname:
+                continue      # a repeat count of 10^400: resource exhaustion
             o = run_form(fname, t)
             agg.count("steps")
             agg.cls((fname, o[0]))
